@@ -70,6 +70,7 @@ class C14(OutstationProp):
         last_failed_at = None
         last_null_seq = None
         pending_enable = None
+        cancelled = None            # the unsolicited response a DISABLE_UNSOLICITED cancelled
         reads = {}                  # sequence number -> the READ request received last with it
         for op, t, lines in steps:
             if op[0] == "rx" and op[2] == "none" and (int(op[1]) == MASTER or int(cfg.get("anymaster", 0)) == 1):
@@ -102,6 +103,12 @@ class C14(OutstationProp):
                 disable_step = len(b0) >= 2 and b0[1] == 21 and op[2] == "none" and (int(op[1]) == MASTER or int(cfg.get("anymaster", 0)) == 1)
             for l in lines:
                 tk = l.split()
+                if len(tk) >= 5 and tk[1] == "info" and tk[2] == "broadcast" and tk[3] == "21" and tk[4] == "processed" and outstanding is not None:
+                    # DISABLE_UNSOLICITED processed by broadcast: cancels the pending series like the unicast one (F30)
+                    if len(outstanding) > 4:
+                        last_failed_at = int(tk[0])
+                        cancelled = outstanding
+                    outstanding = None
                 if len(tk) >= 2 and tk[1].startswith("session-end"):
                     outstanding = None
                     null_confirmed = null_confirmed   # the start-up rule applies per outstation start, not per connection
@@ -114,7 +121,11 @@ class C14(OutstationProp):
                         # the answer to DISABLE_UNSOLICITED: the pending series is cancelled
                         if len(outstanding) > 4:
                             last_failed_at = tt
+                            cancelled = outstanding
                         outstanding = None
+                    if len(x) >= 4 and x[1] == 130 and cancelled is not None and x == cancelled:
+                        fails.append(("resend-after-disable", "an unsolicited response cancelled by DISABLE_UNSOLICITED was re-sent unchanged afterwards"))
+                        cancelled = None
                     if len(x) >= 4 and x[1] == 130:
                         data = len(x) > 4
                         if outstanding is not None and x != outstanding:
